@@ -460,6 +460,9 @@ class Evaluator:
         # "...{}".format(a, b)
         if f[0] == "attr" and f[2] == "format" and is_const(f[1]) and isinstance(f[1][1], str) and not kws:
             return ("fmt", f[1], args)
+        # np.shape(x) / np.ndim(x) / np.size(x) are recorded as the attribute every array has (x.shape / x.ndim / x.size)
+        if q in ("numpy.shape", "numpy.ndim", "numpy.size") and len(args) == 1 and not kws:
+            return ("attr", args[0], q.rsplit(".", 1)[1])
         # x.min() / x.max() / x.ravel() / x.reshape(s) are recorded as the equivalent numpy function calls, so that the method and
         # the function spelling of the same array operation are one term
         if f[0] == "attr" and f[2] in ARRAY_METHODS and f[1][0] not in ("glob",) and not (f[2] in ("min", "max", "ravel") and args):
@@ -654,6 +657,13 @@ class Evaluator:
         g = None
         if isinstance(f, ast.Name) and f.id not in st.env and f.id not in self.closure_env:
             g = self.pkg.functions.get(self.pkg.resolve_name(self.module, f.id))
+        elif isinstance(f, ast.Name) and f.id in st.env and st.env[f.id][0] == "localfn" and f.id in self.nested \
+                and not any(isinstance(x, (ast.Yield, ast.YieldFrom, ast.Nonlocal, ast.Global)) for x in ast.walk(self.nested[f.id][0])):
+            # a closure defined in this function and called directly: its body is run in place, with the enclosing variables visible
+            from .loader import Function
+            node = self.nested[f.id][0]
+            g = Function(st.env[f.id][1], self.fn.module, node)
+            g.closure = True
         elif isinstance(f, ast.Name) and f.id in st.env and st.env[f.id][0] == "glob":
             g = self.pkg.functions.get(st.env[f.id][1])            # a local name bound to a function: wrap = _wrap_to_360; wrap(x)
         elif isinstance(f, ast.Attribute) and isinstance(f.value, ast.Name) and f.value.id == "self" and self.fn.cls is not None and st.env.get("self") == ("param", "self"):
@@ -681,7 +691,7 @@ class Evaluator:
         or None; the caller's environment is restored in every resulting state"""
         call = _spread_keywords(call) or call
         names = g.call_params if g.is_method else list(g.posparams)
-        env = {}
+        env = dict(st.env) if getattr(g, "closure", False) else {}
         if g.is_method:
             env["self"] = ("param", "self")
         pos = [self.ev(a, st) for a in call.args]
@@ -713,7 +723,7 @@ class Evaluator:
                 back.update({k: v for k, v in st2.env.items() if k.startswith("self.")})
                 # the helper's final locals stay visible to rules that read the path environment (loop-carried values), under names
                 # that cannot clash with the caller's
-                back.update({"%s::%s" % (g.name, k): v for k, v in st2.env.items() if not k.startswith("self.") and "::" not in k})
+                back.update({"%s::%s" % (g.name, k): v for k, v in st2.env.items() if not k.startswith("self.") and "::" not in k and caller_env.get(k) != v})
                 st2.env = back
                 self.fn, self.module, self.inline_depth = saved
                 self.emit(st2, "inline-exit", (g.qual,), call)
@@ -882,6 +892,20 @@ class Evaluator:
             c = self.ev(s.test, st)
             self.emit(st, "assert", (c,), s)
             yield st, None
+        elif isinstance(s, ast.With):
+            # with C as name: BODY - the context expression is evaluated, the name is bound to it (a file object's __enter__ returns the
+            # object itself), the body runs, and on EVERY way out of the body (normal, return, raise) the context is left
+            ctxs = []
+            for item in s.items:
+                c = self.ev(item.context_expr, st)
+                self.emit(st, "with-enter", (c,), s)
+                ctxs.append(c)
+                if item.optional_vars is not None:
+                    self.bind(item.optional_vars, c, st, s)
+            for st2, ex in self.run(s.body, st):
+                for c in reversed(ctxs):
+                    self.emit(st2, "with-exit", (c,), s)
+                yield st2, ex
         else:
             raise Unsupported("statement " + type(s).__name__)
 
